@@ -280,7 +280,13 @@ class CB:
         """If value v derives from the dequeued job, return its tuple field index (0..3)."""
         b = self.b
         v0 = v
-        v = noref(b.trace(noref(v), ('Clone::clone', 'NonZero::get')))
+        # (a copy of the job's path, however it is spelled: clone of the Vec, to_vec of a slice of it, ...)
+        for _ in range(4):
+            v2 = noref(b.trace(noref(v), ('Clone::clone', 'NonZero::get', 'slice::to_vec', 'ToOwned::to_owned',
+                                          'Deref::deref', 'Vec::as_slice', 'AsRef::as_ref', 'Borrow::borrow')))
+            if v2 == v:
+                break
+            v = v2
         if self.sim:
             return None
         if v.kind == 'call' and v.key == self.deq.bb:
